@@ -1,5 +1,4 @@
 import AutoVerif.Lemmas.C17
-import AutoVerif.Gen.Consts
 /-
 C17 — OCR2 (v2) coordinator: lockout until the right log, convergent across orderings.
 
@@ -465,210 +464,6 @@ example : (∀ p ∈ exH, p.1 ≤ 80) ∧ 80 + exCfg.window < 1200000000081 ∧
     isPending (run exCfg State.init exH) 1200000000081 (lit "13|5") = (false, false) ∧
     isPending (run exCfg State.init exH) 1200000000060 (lit "13|5") = (true, false) ∧
     isPending (run exCfg State.init exH) 1200000000061 (lit "13|5") = (false, false) := by decide
-
-/-! ### the model's decision points are the source's (regenerated `Gen.Src`, see docs/TIE_THEOREMS.md)
-
-Go strings are `Str = List Nat` on both sides; `found` is the `ok` of a cache `Get`, a missing value is Go's zero value. -/
-
-/-- `NewReportCoordinator`: `lockoutWindow < 1` → the 20 min default -/
-theorem window_matches_source (cfg : Cfg) :
-    cfg.window = if Gen.Src.c17LockoutNeedsDefault cfg.lockout then defaultLockoutNs else cfg.lockout.toNat := by
-  simp [Cfg.window, Gen.Src.c17LockoutNeedsDefault]
-
-/-- `Cache.Get`: missing → miss; `Expires > 0` and `now > Expires` → miss; else the item -/
-theorem cacheGet_matches_source {α} (c : Cache α) (now : Nat) (k : Str) :
-    c.get now k = match c.find k with
-      | none => none
-      | some (v, e) => if Gen.Src.c17GetHasExpiry e && Gen.Src.c17GetExpired now e then none else some v := by
-  unfold Cache.get
-  cases c.find k with
-  | none => rfl
-  | some p => obtain ⟨v, e⟩ := p; simp [Gen.Src.c17GetHasExpiry, Gen.Src.c17GetExpired]
-
-/-- `Cache.Set` with the cache's default lifetime: `expire > 0` → `now + expire`, else never -/
-theorem cacheSet_matches_source {α} (c : Cache α) (now ttl : Nat) (k : Str) (v : α) :
-    c.set now ttl k v = (k, v, if Gen.Src.c17SetExpires ttl then now + ttl else 0) :: c.filter (fun p => p.1 ≠ k) := by
-  simp [Cache.set, Gen.Src.c17SetExpires]
-
-/-- `BasicEncoder.After`: both parse, then `aInt.Cmp(bInt) > 0` -/
-theorem after_matches_source (a b : Str) :
-    after a b = match parseBig a, parseBig b with
-      | some x, some y => some (Gen.Src.c17AfterAnswer (if x < y then -1 else if x = y then 0 else 1))
-      | _, _ => none := by
-  unfold after
-  cases parseBig a with
-  | none => rfl
-  | some x =>
-    cases parseBig b with
-    | none => rfl
-    | some y =>
-      simp only [Gen.Src.c17AfterAnswer, Option.some.injEq, decide_eq_decide]
-      split
-      · omega
-      · split <;> omega
-
-/-- `BasicEncoder.SplitUpkeepKey`: `len(components) != 2` → error -/
-theorem splitUpkeepKey_matches_source (k : Str) :
-    splitUpkeepKey k = if Gen.Src.c17SplitWrongCount (splitOn 124 k).length then none
-      else some ((splitOn 124 k).getD 0 [], (splitOn 124 k).getD 1 []) := by
-  unfold splitUpkeepKey
-  simp only [Gen.Src.c17SplitWrongCount]
-  match h : splitOn 124 k with
-  | [] => simp
-  | [a] => simp
-  | [a, b] => simp
-  | a :: b :: c :: l => simp
-
-/-- `shouldUpdate`: after the two check-block comparisons, `string(b.Transmit) == Indefinite` → update,
-    `string(val.Transmit) == Indefinite` → keep, else the transmit-block comparison -/
-theorem shouldUpdate_matches_source (b val : IdBlocker) :
-    shouldUpdate b val =
-      match after val.check b.check with
-      | none => none
-      | some true => some true
-      | some false =>
-        match after b.check val.check with
-        | none => none
-        | some true => some false
-        | some false =>
-          if Gen.Src.c17StoredIsIndefinite b.transmit indefinite then some true
-          else if Gen.Src.c17NewIsIndefinite val.transmit indefinite then some false
-          else after val.transmit b.transmit := by
-  cases h1 : after val.check b.check with
-  | none => simp [shouldUpdate, h1]
-  | some t1 =>
-    cases t1 with
-    | true => simp [shouldUpdate, h1]
-    | false =>
-      cases h2 : after b.check val.check with
-      | none => simp [shouldUpdate, h1, h2]
-      | some t2 =>
-        cases t2 with
-        | true => simp [shouldUpdate, h1, h2]
-        | false => simp [shouldUpdate, h1, h2, Gen.Src.c17StoredIsIndefinite, Gen.Src.c17NewIsIndefinite]
-
-/-- `updateIdBlock`: stored and (`err != nil` or `!shouldUpdate`) → no write; otherwise `Set` -/
-theorem updateIdBlock_matches_source (cfg : Cfg) (c : Cache IdBlocker) (now : Nat) (id : Str) (val : IdBlocker) :
-    updateIdBlock cfg c now id val =
-      match c.get now id with
-      | some b =>
-        match shouldUpdate b val with
-        | none => c
-        | some su => if Gen.Src.c17KeepStored su then c else c.set now cfg.window id val
-      | none => c.set now cfg.window id val := by
-  cases h : c.get now id with
-  | none => simp [updateIdBlock, h]
-  | some b =>
-    cases h2 : shouldUpdate b val with
-    | none => simp [updateIdBlock, h, h2]
-    | some su => cases su <;> simp [updateIdBlock, h, h2, Gen.Src.c17KeepStored]
-
-/-- `Accept`: `!ok` (key not active) → register and block; else nothing -/
-theorem accept_matches_source (cfg : Cfg) (s : State) (now : Nat) (key : Str) :
-    accept cfg s now key =
-      match splitUpkeepKey key with
-      | none => s
-      | some (blockKey, id) =>
-        if Gen.Src.c17AcceptKeyNew (s.activeKeys.get now key).isSome then
-          { activeKeys := s.activeKeys.set now activeTtlNs key false
-            idBlocks := updateIdBlock cfg s.idBlocks now id { check := blockKey, transmit := indefinite } }
-        else s := by
-  unfold accept
-  cases splitUpkeepKey key with
-  | none => rfl
-  | some p =>
-    obtain ⟨bk, id⟩ := p
-    cases s.activeKeys.get now key <;> simp [Gen.Src.c17AcceptKeyNew]
-
-/-- `IsPending`: id known → `!isAfter`; unknown → not pending -/
-theorem isPending_matches_source (s : State) (now : Nat) (key : Str) :
-    isPending s now key =
-      match splitUpkeepKey key with
-      | none => (true, true)
-      | some (blockKey, id) =>
-        if Gen.Src.c17PendingIdKnown (s.idBlocks.get now id).isSome then
-          match after blockKey ((s.idBlocks.get now id).getD ⟨[], []⟩).transmit with
-          | none => (true, true)
-          | some isAfter => (Gen.Src.c17PendingAnswer isAfter, false)
-        else (false, false) := by
-  cases hs : splitUpkeepKey key with
-  | none => simp [isPending, hs]
-  | some p =>
-    obtain ⟨bk, id⟩ := p
-    cases h : s.idBlocks.get now id with
-    | none => simp [isPending, hs, h, Gen.Src.c17PendingIdKnown]
-    | some bl =>
-      cases ha : after bk bl.transmit <;>
-        simp [isPending, hs, h, ha, Gen.Src.c17PendingIdKnown, Gen.Src.c17PendingAnswer]
-
-/-- `IsTransmissionConfirmed`: `!ok || (ok && confirmed)` -/
-theorem isConfirmed_matches_source (s : State) (now : Nat) (key : Str) :
-    isConfirmed s now key =
-      Gen.Src.c17ConfirmedAnswer (s.activeKeys.get now key).isSome ((s.activeKeys.get now key).getD false) := by
-  unfold isConfirmed
-  cases s.activeKeys.get now key with
-  | none => rfl
-  | some c => cases c <;> rfl
-
-/-- the body shared by the two loops of `checkLogs`: key active; `!confirmed` → mark and update; `confirmed` →
-    update only under the re-org guard `ok && stored check == log check && stored transmit != new transmit`
-    (the same expression in the perform loop and, with `nextKey`, in the stale-report loop) -/
-theorem processLog_matches_source (cfg : Cfg) (s : State) (now : Nat) (key logCheck id tb : Str) :
-    processLog cfg s now key logCheck id tb =
-      match s.activeKeys.get now key with
-      | none => s
-      | some confirmed =>
-        if Gen.Src.c17LogKeyUnconfirmed confirmed then
-          { activeKeys := s.activeKeys.set now activeTtlNs key true
-            idBlocks := updateIdBlock cfg s.idBlocks now id { check := logCheck, transmit := tb } }
-        else
-          let stored := (s.idBlocks.get now id).getD ⟨[], []⟩
-          if Gen.Src.c17ReorgGuard (s.idBlocks.get now id).isSome stored.check logCheck stored.transmit tb then
-            { s with idBlocks := updateIdBlock cfg s.idBlocks now id { check := logCheck, transmit := tb } }
-          else s := by
-  unfold processLog
-  cases s.activeKeys.get now key with
-  | none => rfl
-  | some confirmed =>
-    cases confirmed with
-    | false => simp [Gen.Src.c17LogKeyUnconfirmed]
-    | true =>
-      cases s.idBlocks.get now id with
-      | none => simp [Gen.Src.c17LogKeyUnconfirmed, Gen.Src.c17ReorgGuard]
-      | some bl => simp [Gen.Src.c17LogKeyUnconfirmed, Gen.Src.c17ReorgGuard]
-
-/-- the two guards of the source are the same expression -/
-theorem staleGuard_matches_source (found : Bool) (a b c d : Str) :
-    Gen.Src.c17StaleGuard found a b c d = Gen.Src.c17ReorgGuard found a b c d := rfl
-
-/-- perform loop of `checkLogs`: `l.Confirmations < int64(rc.minConfs)` → skip -/
-theorem performLog_matches_source (cfg : Cfg) (s : State) (now : Nat) (l : Log) :
-    performLog cfg s now l =
-      if Gen.Src.c17LogTooFewConfirmations l.confs cfg.minConfs then s
-      else match splitUpkeepKey l.key with
-        | none => s
-        | some (logCheck, id) => processLog cfg s now l.key logCheck id l.transmit := by
-  by_cases hc : l.confs < cfg.minConfs
-  · simp [performLog, Gen.Src.c17LogTooFewConfirmations, hc]
-  · cases hs : splitUpkeepKey l.key <;> simp [performLog, Gen.Src.c17LogTooFewConfirmations, hc, hs]
-
-/-- stale-report loop of `checkLogs` (its confirmation test is textually the perform loop's) -/
-theorem staleLog_matches_source (cfg : Cfg) (s : State) (now : Nat) (l : Log) :
-    staleLog cfg s now l =
-      if Gen.Src.c17LogTooFewConfirmations l.confs cfg.minConfs then s
-      else match splitUpkeepKey l.key with
-        | none => s
-        | some (logCheck, id) =>
-          match increment logCheck with
-          | none => s
-          | some nextKey => processLog cfg s now l.key logCheck id nextKey := by
-  by_cases hc : l.confs < cfg.minConfs
-  · simp [staleLog, Gen.Src.c17LogTooFewConfirmations, hc]
-  · cases hs : splitUpkeepKey l.key with
-    | none => simp [staleLog, Gen.Src.c17LogTooFewConfirmations, hc, hs]
-    | some p =>
-      obtain ⟨lc, id⟩ := p
-      cases hi : increment lc <;> simp [staleLog, Gen.Src.c17LogTooFewConfirmations, hc, hs, hi]
 
 /-! ### the Spec predicate holds of the model, for every case the harness can generate -/
 
